@@ -440,6 +440,9 @@ MustRejectErrorsOf(b, st) ==
                \cup (IF \E i \in 1..n : fs[i].hdr.nch # si.ch \/ fs[i].hdr.bps # si.bps \/ fs[i].hdr.rate # si.rate
                      THEN {"frame header disagrees with STREAMINFO"} ELSE {})
                \cup (IF known /\ TotalOf(si) # total THEN {"STREAMINFO total samples"} ELSE {})
+               \* the smallest legal block is 16 samples; only the block that completes a declared total may be shorter (the decoder
+               \* draws the line at 14, and so does this rule; without a declared total no frame is known to be the last)
+               \cup (IF known /\ \E i \in 1..(n - 1) : fs[i].bs <= 14 THEN {"short block before the last"} ELSE {})
              ELSE {})
        \cup (IF frameErrs = {} /\ n = 0 /\ known /\ Len(st.frames) = 0 THEN {"STREAMINFO total samples"} ELSE {})
 =======================================================================
